@@ -310,8 +310,8 @@ impl Scenario for Chaos {
         "case = input (pure random bytes of 0..64 kB incl. < 8 bytes | well-framed arbitrary stream with byte-level \
          corruption | conforming stream hit by 1..4 structure-aware corruption faults: RDH bit flips / extreme field \
          values, word bit flips / ID changes / insert / delete / duplicate / swap, packet loss / duplication / swap / \
-         cross-link splice, size fields inconsistent, excess padding, plus byte-level flips / truncation / inserts) x \
-         a valid command line (5 check modes, 3 views, filtered writing to file/stdout; filters, -m, -e, -E, -w, -S, \
+         cross-link splice, size fields inconsistent, excess padding, plus byte-level flips / truncation / inserts | the repository's own sample files \
+         (tests/test-data) with byte-level corruption) x a valid command line (5 check modes, 3 views, filtered writing to file/stdout; filters, -m, -e, -E, -w, -S, \
          -c custom checks, -p) x {file, pipe} x seeded schedule x capacity cap x read faults (short, EINTR, EIO). \
          Oracle: no panic in any managed thread, no deadlock, step budget, wall-clock limit, no fatal signal, exit \
          status in {0, 1, N}. Non-trivial: >= 2 managed threads ran. Distinct: (input hash, trace hash)."
@@ -448,7 +448,9 @@ impl Scenario for Sched {
     fn rule(&self) -> String {
         "case = one (input, command line): multi-link stream (3-12 links), conforming or carrying 1..6 corruption \
          faults on several links (so that several errors share an offset and the total exceeds 20 in part of the \
-         cases), modes check all / its / its-stave and views, with and without -m, statistics to JSON/TOML; one \
+         cases; 1 in 6 with an OVERLAP: memory size > offset-to-next followed by another link's erroneous RDH, so \
+         that two validators report at one position; 1 in 10 one of the repository's sample files), modes check \
+         all / its / its-stave and views, with and without -m, statistics to JSON/TOML; one \
          canonical-schedule reference run, then N runs (quick 8, thorough 24) under random / PCT / starvation \
          policies, capped queue capacities and benign I/O faults. Oracle: exit status, non-WARN stderr messages in \
          order, statistics file bytes, stdout without the `Processed in` line, output identical to the reference; \
@@ -1015,7 +1017,7 @@ impl Scenario for Scan {
     fn rule(&self) -> String {
         "case = well-framed stream with arbitrary header values (0, 1, 99/100/101/199/200/201/300 and 2..260 packets; \
          thorough up to 20000), payloads of 0..10000 arbitrary bytes or of 80-bit words laid out per the header's data \
-         format, 1..6 interleaved links, and a filter (link / FEE / layer-stave present in the stream, absent value, \
+         format (or one of the repository's well-framed sample files), 1..6 interleaved links, and a filter (link / FEE / layer-stave present in the stream, absent value, \
          or none). Each case is run through 3-4 payload-handling paths: `view rdh -d` (payload skipped by seek from a \
          file, by read-discard from a pipe), `check sanity -S` (skipped), `check sanity its -S` (loaded) and, for \
          word payloads, `view its-readout-frames-data -d` (loaded); under seeded schedules, capped queues and benign \
@@ -1109,8 +1111,9 @@ impl Scenario for FilterWrite {
     }
     fn rule(&self) -> String {
         "case = well-framed stream (arbitrary headers and payload sizes, packet counts incl. 0, 1 and the batch \
-         multiples, 1..6 interleaved links) x one filter kind (link / FEE / layer-stave) x destination (file / stdout) \
-         x source (file / pipe). The filter is run for EVERY distinct value of that kind present in the stream plus \
+         multiples, 1..6 interleaved links; 1 in 12 a sample file of the repository) x one filter kind (link / FEE / \
+         layer-stave) x destination (file / stdout) x source (file / pipe); in a third of the cases the destination \
+         and statistics files already exist with unrelated content (stored state of an earlier run). The filter is run for EVERY distinct value of that kind present in the stream plus \
          one absent value, under seeded schedules, capped reader->writer queue and benign short reads / short writes \
          / EINTR. Oracle: output bytes == concatenation in input order of the walker's matching packets; outputs over \
          all distinct values total the input size (partition); each output walks cleanly; filtering an output again \
@@ -1727,7 +1730,7 @@ impl Scenario for PayloadCut {
          rows == the independent word table (every word once, in order, at its offset, with its bytes; no row made \
          of padding). (2) words planted as position markers: conforming multi-link streams (both formats, padding \
          0..15) in which data words at chosen indices get an invalid ID; `check sanity its` / `check all its` must \
-         report exactly those offsets (E991/E70) and nothing else. (3) excess-padding fault (16..40 bytes 0xFF) on a \
+         report exactly those offsets (E991/E70) and nothing else. (3) excess-padding fault (16..40 bytes 0xFF; both data formats) on a \
          continuation page (mid-continuation) or on the last data page before a stop page, with recovery: exactly one \
          `Payload error following RDH` at that RDH, no message inside the skipped payload, and the next packet is \
          judged from the initial state (mid-continuation: no further error; before a stop page: the DDW0 is judged \
@@ -1910,7 +1913,8 @@ impl Scenario for RdhWalk {
          contiguously, round-robin or randomly; modes check sanity / check all x target none / its; histories of up \
          to thousands of RDHs per link in the thorough tier; run through the whole pipeline under seeded schedules. \
          Oracle (exact, both directions): [E10] at an RDH's offset iff the documented sanity predicate fails \
-         (relative to the first version the link saw; system ID only with target its); [E11] iff the documented \
+         (relative to the first version the link saw - or, in a fifth of the cases, to the version pinned with a \
+         custom-checks file, which must leave every other rule untouched; system ID only with target its); [E11] iff the documented \
          running automaton flags it (check all only; never in check sanity); nothing else is reported. \
          Non-trivial: >= 3 RDHs and >= 4 threads."
             .into()
@@ -2376,7 +2380,10 @@ impl Scenario for Isolate {
     }
     fn rule(&self) -> String {
         "case = multi-link stream (2..8 links; conforming or with 1..4 faults confined to single links: packet loss / \
-         duplication / reordering, RDH field edits, word bit flips / ID changes / deletions / duplications) in one of \
+         duplication / reordering, RDH field edits incl. the fields a link learns from its first packet (version, \
+         system ID, priority, reserved bits; first packet of the link in half of the cases), word bit flips / ID \
+         changes / deletions / duplications; staves of one layer differing in one bit; two FEE IDs on one link \
+         number in stave mode; 1 in 8 a multi-link sample file of the repository cut up by the walker) in one of \
          the modes check all, check all its, check all its-stave, check sanity its. For each case: a reference full \
          run on one merge of the links; a full run on a different merge (contiguous / round-robin / random) of the \
          same per-link sequences; for one link its physically extracted single-link stream; a filter run (-f / -F / \
@@ -2385,7 +2392,9 @@ impl Scenario for Isolate {
          with an extra word-level fault on another link. Every pipeline run has its own seeded schedule and capacity \
          cap. Messages are normalised with the independent walker: each offset (leading, `ending at 0x..`) becomes \
          (packet index within the link, byte offset within the packet). Oracle: the normalised per-link (per FEE ID \
-         in stave mode) message lists are equal in all settings; a fault on link A changes nothing on links != A. \
+         in stave mode) message lists are equal in all settings; a fault on link A changes nothing on links != A; a \
+         filter run reports nothing for a link none of whose packets match; a compared run that the tool refuses at \
+         the very first RDH (input detection) is skipped. \
          Non-trivial: >= 5 managed threads in the reference run."
             .into()
     }
